@@ -1,17 +1,81 @@
 """C10 - EVM messages reach the signer only from the core contract and when final."""
 import os
 import re
+import shutil
 
 import vlib
 
 OVERLAY = {
     "node/pkg/ethereum/zz_verif_evm_test.go": "ethereum/evm_verif_test.go",
     "node/pkg/ethereum/zz_verif_evm_gen_test.go": "ethereum/evm_gen_verif_test.go",
+    "node/pkg/ethereum/zz_verif_gsfetch_test.go": "ethereum/gsfetch_verif_test.go",
 }
+
+# The guardian-set fetch cases (harness/ethereum/gsfetch_verif_test.go, driver op `gsf`). The clause belongs to C07 ("a VAA the
+# node considers complete is accepted on chain and an incomplete one is not": the node's threshold is computed from the set the
+# watcher hands to the processor, the contracts' from the set on chain); C10 runs and reports it as well.
+GSFETCH_CLAUSES = ("guardian-set-altered-before-processor",)
+GSFETCH_TEST = "TestVerifGuardianSetFetch"
 
 
 def classify(clause, case, verdict):
     return clause
+
+
+def _ensure_evm_driver(ctx):
+    """The caller's ctx.prove(families=...) normally builds drv_evm and takes a private copy; if it did not list "evm", do it here."""
+    priv = os.path.join(ctx.work, "bin", "drv_evm")
+    if os.path.exists(priv):
+        return True
+    with vlib.Lock("lake"):
+        rc, out = ctx.lake_build(["drv_evm"])
+        if rc != 0:
+            ctx.broken.append(("tie", "driver-build", "lake build drv_evm failed: %s" % "; ".join(re.findall(r"error: ([^\n]*)", out)[:5])[:600]))
+            return False
+        os.makedirs(os.path.dirname(priv), exist_ok=True)
+        shutil.copy2(os.path.join(vlib.BIN, "drv_evm"), priv)
+    return True
+
+
+def run_gsfetch_for(ctx, clauses):
+    """Run the guardian-set fetch harness against vlib.REPO and judge it with the evm driver; keep only the Spec verdicts whose
+    clause is in `clauses` (a tuple of clause names, normally GSFETCH_CLAUSES). Callable from any check module:
+        from checks import c10; c10.run_gsfetch_for(ctx, c10.GSFETCH_CLAUSES)
+    Needs nothing from the caller beyond a vlib.Ctx (it builds drv_evm itself when ctx.prove was not given the family "evm").
+    Returns the number of fetches on which model and implementation agreed and the clause held."""
+    path = os.path.join(ctx.work, "gsfetch.cases")
+    if not getattr(ctx, "_gsfetch_ran", False):
+        # (C10's own run() has already produced the file in the same `go test` invocation as the evm cases)
+        if os.path.exists(path):
+            os.remove(path)
+        ov = ctx.overlay(OVERLAY, p2p_stub=True)
+        if ov is None:
+            return 0
+        rc, out = ctx.go_test("node", "./pkg/ethereum", "^%s$" % GSFETCH_TEST, ov, timeout=600)
+        if rc != 0 or not os.path.exists(path):
+            ctx.broken.append(("tie", "go-harness:gsfetch", out[-1500:]))
+            if not os.path.exists(path):
+                return 0
+    if not _ensure_evm_driver(ctx):
+        return 0
+    lines = [ln.rstrip("\n") for ln in open(path) if ln.startswith("gsf ")]
+    before = len(ctx.spec_violations)
+    n_ok, stats = ctx.judge("evm", path, classify)
+    kept = [v for v in ctx.spec_violations[before:] if v["key"] in clauses]
+    dropped = len(ctx.spec_violations) - before - len(kept)
+    ctx.spec_violations[before:] = kept
+    if dropped:
+        ctx.notes.append("%d Spec verdicts of the guardian-set fetch cases belong to another check" % dropped)
+    sizes = sorted(set(int(m.group(1)) for m in (re.search(r" cn=(\d+) ", ln) for ln in lines) if m))
+    ctx.cov["evaluations"] += len(lines)
+    ctx.cov["gsfetch"] = {"fetches": len(lines), "agreed_and_held": n_ok, "set_sizes_on_chain": sizes,
+                          "via_run": sum(1 for ln in lines if " via=run " in ln)}
+    ctx.cov["samples"] += [ln[:400] for ln in lines[:1]]
+    ctx.cov["trusted_base"] += [
+        "harness/ethereum/gsfetch_verif_test.go (the fake node's guardian-set getters answer eth_call with go-ethereum's own ABI packer; "
+        "rendering of what arrived on setC) and the `gsf` op of Whv/Driver/Evm.lean",
+    ]
+    return n_ok
 
 
 def config_fact(ctx):
@@ -46,7 +110,9 @@ def run(ctx):
     ov = ctx.overlay(OVERLAY, p2p_stub=True)
     if ov is None:
         return
-    rc, out = ctx.go_test("node", "./pkg/ethereum", "^TestVerifEvm$", ov, timeout=1500 if ctx.tier == "thorough" else 400)
+    # one `go test` invocation for both harnesses (the package's test binary is linked once)
+    rc, out = ctx.go_test("node", "./pkg/ethereum", "^(TestVerifEvm|%s)$" % GSFETCH_TEST, ov, timeout=1500 if ctx.tier == "thorough" else 400)
+    ctx._gsfetch_ran = os.path.exists(os.path.join(ctx.work, "gsfetch.cases"))
     src = os.path.join(ctx.work, "evm.cases")
     if not os.path.exists(src):
         ctx.broken.append(("tie", "go-harness", out[-1500:]))
@@ -67,6 +133,7 @@ def run(ctx):
             if ops[parts[0]] <= 2 and len(samples) < 10:
                 samples.append(ln.strip()[:600])
     n_ok, stats = ctx.judge("evm", src, classify)
+    n_ok += run_gsfetch_for(ctx, GSFETCH_CLAUSES)
     ctx.cov["evaluations"] += sum(ops.values())
     ctx.cov["distinct_nontrivial"] += n_ok
     ctx.cov["samples"] += samples
@@ -89,6 +156,18 @@ def run(ctx):
         "Fixed re-observation scenarios on a chain read at finalized height (finalized 100 / latest 132, block at -1,0,+1,+21,+32,+33 "
         "of the finalized head, request repeated when finality catches up) with dev mode as control; the fake node also serves "
         "eth_blockNumber (= latest head) and every head read of a re-observation is recorded (`hq`). "
+        "Op `restart`: when Run has returned with an RPC-induced error (block-time lookup of a log failing or answering null, an "
+        "undecodable log ending the log subscription, three failed / number-less head polls ending the head subscription) the "
+        "supervised runnable hands the error to the real supervisor, which cancels the old incarnation and - after its own back-off - "
+        "calls Run again on the SAME Watcher; the history goes on and everything forwarded across incarnations is judged by the same "
+        "Spec (a restart processes no head: nothing may be forwarded and nothing may leave the pending set - `pending-lost`; later heads "
+        "must forward every message that was pending, exactly once - `final-not-forwarded` / `forwarded-twice`). Fixed scenarios per "
+        "cause x confirmation mode (a message forwarded before, one pending, after a transient receipt failure, a restarted incarnation "
+        "whose guardian-set call fails and is restarted again; the head moves on while the new poller is off, the log of a new message "
+        "switches it on) and a bounded number of restarts inside the generated histories (4 quick / 150 thorough). Barriers of a "
+        "restart: the old incarnation's goroutines have ended, the new one has logged its guardian-set fetch, Run is parked in its final "
+        "select and the new poller is idle after its first block read (goroutine states); the only real-time wait is the supervisor's own "
+        "back-off. "
         "Synchronised by barriers (RPC requests seen "
         "by the node, the watcher's own log lines, pointer identity of pending entries, an unbuffered request channel, goroutine "
         "states of the poller / the log goroutine); no sleeps, "
@@ -110,10 +189,15 @@ def run(ctx):
         "generator stays below 2^40)",
         "liveness half (forwarded at the first processed head with height+conf <= head) is relative to the poller publishing heads and "
         "to the node's answers; the poller only runs while something is pending",
-        "guardian-set polling, dial/subscribe failures at start-up other than a failing guardian-set call, and watcher restarts by "
-        "the supervisor are outside the modelled behaviour (a case ends when Run returns)",
+        "guardian-set polling (the 15 s ticker) and dial/subscribe failures at start-up other than a failing guardian-set call are outside "
+        "the modelled behaviour; restarts of Run by the supervisor are modelled (`restart`: the Watcher's pending set is kept, the new "
+        "poller starts switched off with the current head as its last block)",
     ]
     ctx.notes += [
+        "scope note (restart): the BlockPollConnector of a restarted Run starts disabled although w.pending may be non-empty; messages that "
+        "were pending at the restart are examined again only after the next log delivery has switched the poller on (modelled: `restart`, "
+        "witnessed: last conjunct of c10_restart_fresh_witness, observed on every restart line: en=0). Not reported: the liveness half of "
+        "the Spec is relative to the heads the watcher processes.",
         "scope note: MessageEventsForTransaction panics (index out of range) on a topic-less log emitted by the core contract address, "
         "and (nil dereference) on a nil receipt or a receipt without block number; modelled as EvtRes.panic and confirmed on the direct "
         "layer (stat evt_panic_agree). Not reachable with a standard node: the core contract emits no anonymous events, ethclient turns a "
